@@ -85,7 +85,29 @@ fn one_history(run: &Run, case: u64) {
             // every other time the second backup does not record owners: the tree is as
             // unchanged as before, only the recorded metadata differs
             let no_owner = rng.chance(1, 2);
+            // every third time some other program has left files of its own in the archive (a
+            // file manager's .DS_Store, a sync tool's temporary): beside the band directories,
+            // in the previous band, in its index directory and in its first hunk subdirectory.
+            // conserve lists only what it names itself; such files are not the archive's
+            let mut foreign: Vec<std::path::PathBuf> = Vec::new();
+            if rng.chance(1, 3) {
+                let bd = w.arch.join(crate::fmt06::band_dirname(first));
+                for d in [w.arch.clone(), bd.clone(), bd.join("i"), bd.join("i").join("00000")] {
+                    if d.is_dir() {
+                        for name in [".DS_Store", ".nfs000000000badc0de"] {
+                            let f = d.join(name);
+                            if std::fs::write(&f, b"\0\0\0\x01Bud1 not conserve's").is_ok() {
+                                foreign.push(f);
+                            }
+                        }
+                    }
+                }
+                run.count("unchanged_tree_backups_with_foreign_files_in_the_archive", 1);
+            }
             let rep2 = if no_owner { cs::without_owner(|| w.backup(o2)) } else { w.backup(o2) };
+            for f in &foreign {
+                let _ = std::fs::remove_file(f);
+            }
             if no_owner {
                 run.count("unchanged_tree_backups_with_the_owner_option_switched_off", 1);
             }
